@@ -311,7 +311,13 @@ impl BufCheck {
                     let mut tags: Vec<Tag> = Vec::new();
                     let mut per: Vec<Vec<MTag>> = vec![Vec::new(); n];
                     if n > 0 {
-                        let ntags = if kn.tag_heavy {
+                        let ntags = if kn.tag_heavy && src.chance(1, 12) {
+                            // A burst of tags, many of them sharing a sample:
+                            // enough for a sort to leave its small-slice path
+                            // (commit order among equal positions must survive).
+                            ctx.count("tag_burst_over_20_in_one_commit");
+                            src.range(21, 40)
+                        } else if kn.tag_heavy {
                             *src.pick(&[0usize, 1, 1, 2, 3, 5])
                         } else if src.chance(1, 4) {
                             1
